@@ -72,9 +72,10 @@ def main():
             table = ty.startswith('asn_TYPE_') or ty.startswith('asn_per_constraints') or 'specifics' in ty or 'specialRealValue' in ty
             if table and 'write' not in kinds:
                 continue
-            item = {'function': f, 'object': s, 'kinds': sorted(kinds), 'type': ty}
+            # block-scope numbers in CBMC's mangled names (f::1::9::x) change with harmless edits: compare by f::x
+            item = {'function': f, 'object': re.sub(r'::\d+', '', s), 'kinds': sorted(kinds), 'type': ty}
             res.append(item)
-            if not any(a['function'] == f and a['object'] == s for a in allow):
+            if not any(a['function'] == f and a['object'] == item['object'] for a in allow):
                 new.append(item)
         print(json.dumps({'functions_scanned': nfun, 'static_objects': len(statics), 'non_const_static_objects': len(names),
                           'writers_or_escapes': res, 'new': new}, indent=1))
